@@ -175,6 +175,43 @@ def run(run, tier, seed):
                         run.evaluations += 1
                         if t > 1 and ns >= 10:
                             run.nontriv([cmd, inp, t, ns, rep, " ".join(mk(t, "OUT")[-3:])])
+        # build from paired FASTQ with --min-count auto: the coverage model runs before the parallel build
+        from props.c20 import simulate_reads
+        from props.c12 import write_fastq
+        for ai in range(1 if tier == "quick" else 3):
+            k = [21, 15, 31][ai]
+            pairs = []
+            for sidx in range(2 + ai):
+                reads = simulate_reads(rng, rng.randint(900, 1300), rng.randint(15, 30), 0.01, k)
+                half = len(reads) // 2
+                f1, f2 = os.path.join(tmp, "q%d_%d_1.fastq" % (ai, sidx)), os.path.join(tmp, "q%d_%d_2.fastq" % (ai, sidx))
+                write_fastq(f1, reads[:half], ["I" * len(r) for r in reads[:half]])
+                write_fastq(f2, reads[half:], ["I" * len(r) for r in reads[half:]])
+                pairs.append((f1, f2))
+            flq = os.path.join(tmp, "q%d.txt" % ai)
+            open(flq, "w").write("".join("q%d\t%s\t%s\n" % (j, a, c_) for j, (a, c_) in enumerate(pairs)))
+            ep += 1
+            base = None
+            for t in threads_list:
+                out = os.path.join(tmp, "qout%d_%d" % (ai, t))
+                args = ["build", "-o", out, "-k", str(k), "-f", flq, "--min-count", "auto", "--threads", str(t)]
+                rc, so, se, hook = run_cmd(args, os.path.join(tmp, "trq.ndjson"))
+                val = None
+                if rc == 0:
+                    tb = vlib.parse_nk(vlib.ska_cli(["nk", "--full-info", out + ".skf"])[1].decode())
+                    val = [tb["names"], tb["rows"]]
+                if t == 1:
+                    base = val
+                    if rc != 0:
+                        break              # the coverage model did not converge on these reads: nothing to compare
+                events.append({"ev": "run", "ep": ep, "cmd": "build", "input": "fastq-auto", "threads": t, "rep": 0, "nsamples": len(pairs),
+                               "rc": rc, "hook": [{kk: h[kk] for kk in h if kk != "pid"} for h in hook],
+                               "same_as_t1": val is not None and val == base, "panic": "",
+                               "args": "build -k %d -f LIST --min-count auto --threads %d" % (k, t),
+                               "err": "" if rc == 0 else se.decode(errors="replace")[-300:]})
+                run.evaluations += 1
+                if t > 1:
+                    run.nontriv(["build-auto", ai, t])
         # ska lo: identical with a reference, same columns up to order and strand without; on inputs with isolated
         # SNPs and on dense ones (SNPs and indels a few bases apart, where variant groups overlap and compete)
         import derive, lodrv, skacli
